@@ -119,6 +119,9 @@ func TestC10(t *testing.T) {
 	t0 = time.Now()
 	c.parserTotalPart()
 	res.AddExtra("parser_total_s", time.Since(t0).Seconds())
+	if !hx.SelfTest() {
+		c.envPart()
+	}
 	t0 = time.Now()
 	c.grammarPart()
 	res.AddExtra("grammar_s", time.Since(t0).Seconds())
